@@ -6,7 +6,7 @@
    tree with the minimal parentheses implied by  unary > ++ > % > sequence > |. *)
 From Coq Require Import List NArith Bool Arith.
 Import ListNotations.
-From V Require Import Base.Prelude Model.C31 Proofs.C31.
+From V Require Import Base.Prelude Model.C31 Proofs.C31 Proofs.C31Sound.
 
 (* precedence: every well-formed tree, printed with minimal parentheses and followed by any
    token that cannot continue an expression, is parsed back to exactly that tree, consuming
@@ -40,6 +40,14 @@ Proof. exact parse_file_hole_error. Qed.
 Theorem C31_no_error_wf : forall ts rs, parse_file ts = Ok (rs, 0) -> rules_wf rs.
 Proof. exact parse_file_noerr_wf. Qed.
 
+(* the converse direction, for ANY token stream (any amount of redundant parentheses): if an
+   expression is parsed without error, the consumed tokens are, up to parentheses, exactly the
+   minimal print of the returned tree — same leaves and operators in the same order.  With
+   C31_no_error_wf and C31_parse_print_expr: parsing = dropping redundant parentheses. *)
+Theorem C31_parse_sound : forall f ts e r, P f SExpr ts = Some (Some e, r, 0) ->
+  exists c, ts = c ++ r /\ strip c = strip (pr e).
+Proof. exact parse_expr_sound. Qed.
+
 (* non-vacuity *)
 Definition a := [97]%N. Definition b := [98]%N. Definition c := [99]%N. Definition d := [100]%N.
 (* doc = a b % c ++ d | *(a | b) ?c ;   parses as  Choice[Seq[a, b % (c ++ d)], Seq[*(a|b), ?c]] *)
@@ -72,3 +80,4 @@ Print Assumptions C31_parse_print_file.
 Print Assumptions C31_total.
 Print Assumptions C31_missing_factor_is_error.
 Print Assumptions C31_no_error_wf.
+Print Assumptions C31_parse_sound.
